@@ -67,6 +67,38 @@ SPECS = [
              "i18n_at('h1', 'target_language') is val(1)",
              "i18n_now('target_language') is i18n0('target_language')",
          ], raises={'*': {'ensures': ["raised('h1') or raised('e1')"]}}, serves=['C10']),
+    # the i18n settings of ONE element: each statement keeps its own value whatever other i18n
+    # statements the element carries (context / target / name are read off the same attribute table)
+    dict(id='S-I18nTarget-name',
+         text='A<p i18n:translate="">t <b i18n:target="e1" i18n:name="n1">%s</b> u</p>B' % H1,
+         ensures=[
+             "evals(1) == 1",
+             "i18n_at('h1', 'target_language') is val(1)",
+             "i18n_at('h1', 'context') is i18n0('context')",
+             "translate_calls() == 1",
+             "translate_arg(0, 'msgid') == 't ${n1} u'",
+             "translate_arg(0, 'target_language') is i18n0('target_language')",
+         ], raises={'*': {'ensures': ["raised('h1') or raised('e1')"]}}, serves=['C10']),
+    dict(id='S-I18nContext-name',
+         text='A<p i18n:translate="">t <b i18n:context="c" i18n:name="n1">%s</b> u</p>B' % H1,
+         ensures=[
+             "i18n_at('h1', 'context') == 'c'",
+             "i18n_at('h1', 'target_language') is i18n0('target_language')",
+             "translate_calls() == 1",
+             "translate_arg(0, 'msgid') == 't ${n1} u'",
+             "translate_arg(0, 'context') is i18n0('context')",
+         ], raises=ANYRAISE, serves=['C10']),
+    dict(id='S-I18nContext-target-domain',
+         text='A<p i18n:context="c" i18n:target="e1" i18n:domain="d">%s</p>B' % H1,
+         ensures=[
+             "evals(1) == 1",
+             "i18n_at('h1', 'context') == 'c'",
+             "i18n_at('h1', 'domain') == 'd'",
+             "i18n_at('h1', 'target_language') is val(1)",
+             "i18n_now('context') is i18n0('context')",
+             "i18n_now('domain') is i18n0('domain')",
+             "i18n_now('target_language') is i18n0('target_language')",
+         ], raises={'*': {'ensures': ["raised('h1') or raised('e1')"]}}, serves=['C10']),
     dict(id='S-Content-translate',
          # an inserted value that is translated first is still escaped like every inserted value
          text='A<p tal:content="e7" i18n:translate="">x</p>B',
